@@ -44,9 +44,14 @@ MAINT = ('pack', 'pack_clean', 'clean', 'addpack', 'addpack_z')
 def strategy():
     return st.fixed_dictionaries(
         {
-            'cfg': gen.config(targets=(64, 1000, 4 * 1024**3)),
+            'cfg': gen.config(targets=(1, 64, 1000, 4 * 1024**3)),
             'pool': st.lists(gen.content_desc(2000, 0), min_size=4, max_size=10),
-            'pre': st.lists(st.tuples(st.integers(0, 9), st.integers(0, 3)), min_size=1, max_size=6),
+            # mostly a handful of objects; sometimes enough of them for two-digit pack numbers (with a small pack_size_target)
+            'pre': st.one_of(
+                st.lists(st.tuples(st.integers(0, 9), st.integers(0, 3)), min_size=1, max_size=6),
+                st.lists(st.tuples(st.integers(0, 9), st.integers(0, 3)), min_size=1, max_size=6),
+                st.lists(st.tuples(st.integers(0, 9), st.integers(1, 3)), min_size=12, max_size=16),
+            ),
             'writers': st.lists(st.lists(st.integers(0, 9), min_size=1, max_size=3), min_size=1, max_size=2),
             'maint': st.lists(st.tuples(st.sampled_from(MAINT), st.integers(0, 9), st.integers(0, 5)), min_size=3, max_size=8),
             'split_loose': st.integers(0, 65535),
@@ -90,8 +95,11 @@ def run_case(case):  # pylint: disable=too-many-locals,too-many-statements,too-m
     setup = Container(path)
     setup.init_container(**config_kwargs(cfg))
     stored = {}
-    for idx, form in case['pre']:
+    for position, (idx, form) in enumerate(case['pre']):
         data = pool[idx % len(pool)]
+        if len(case['pre']) > 10:
+            data += b'@%d' % position  # all distinct: as many packs as objects when pack_size_target is tiny
+            universe[digest(hash_type, data)] = data
         if form in (0, 3):
             key = setup.add_object(data)
         if form in (1, 2, 3):
